@@ -107,6 +107,7 @@ def corruptions(doc, ver, clsname=None, dictionary=None):
             out.append(_set(p, "id:only-separator", "--"))
             out.append(_set(p, "id:upper-type", prefix.upper() + "3f2504e0-4f89-41d3-9a0c-0305e82c3301"))
             out.append(_set(p, "id:uuid-v1", prefix + V1_UUID))
+            out.append(_set(p, "id:other-valid-uuid", prefix + "7e4ba2c2-6b3e-4a0f-9a6e-0e2f5f5d0a11"))
         elif k == "reference":
             cur_t = val.split("--")[0] if isinstance(val, str) else ""
             for t in all_types:
@@ -118,6 +119,7 @@ def corruptions(doc, ver, clsname=None, dictionary=None):
         elif k == "timestamp":
             for name, t in BAD_TS:
                 out.append(_set(p, "ts:" + name, t))
+            out.append(_set(p, "ts-other-valid", "2001-02-03T04:05:06.000Z"))
         elif k == "dictionary":
             out.append(_set(p, "dict:short-key", {"ab": 1}))
             out.append(_set(p, "dict:one-char-key", {"a": 1}))
